@@ -227,12 +227,20 @@ def clauses(tier, seed):
       Clause('numeric:horizontal weights (non-negative, row sums, conservation) and NaN patterns over grid pairs', 'numeric', hf, run_horizontal, group='jax-a', heavy=True),
       Clause('numeric:NaN propagation through sliver overlaps', 'numeric', hf, run_sliver, group='jax-b', heavy=True),
       Clause('numeric:vertical hybrid->sigma weights over surface pressures and level sets', 'numeric', vf, run_vertical, replay=replay_vertical, group='jax-c', heavy=True),
-  ]
+  ] + _pyvc_clauses()
+
+
+def _pyvc_clauses():
+  from contracts import regrid_contracts
+  return regrid_contracts.clauses()
 
 
 MANIFEST = {
-    'engine': 'rtc',
-    'technique': 'contract-based run-time post-conditions on the weight matrices extracted from the real functions (complete over fields by linearity), enumerated grid pairs; bounded',
-    'text': 'other: complete over fields (weights decide every field), bounded over source/target grid pairs, surface pressures and level sets. No deductive clause built for this property.',
+    'engine': 'pyvc+rtc',
+    'technique': ('contract-based deductive: VCs from the real source in row mode (one generic target cell against a source partition of symbolic size): overlap == length of the '
+                  'intersection, telescoping row-sum lemma by induction, positivity over the covered range, conservation of the un-normalised rows, weights == overlap / row sum in [0,1]; '
+                  'phase alignment and periodic / latitude overlaps in elementwise mode (z3); bounded run-time twins on the weight matrices over enumerated grid pairs'),
+    'text': ('other: the vertical overlap / weight construction and the horizontal building blocks (_align_phase_with, _periodic_overlap, _latitude_overlap entries) are proved for all sizes and '
+             'bounds (floats as reals); assembling them into the 2-d horizontal regridder, NaN bookkeeping and the hybrid->sigma pipeline are bounded (weight matrices over enumerated grid pairs).'),
     'note': 'trusted: independent computation of cell measures from the cell bounds; A1/A2.',
 }
